@@ -179,7 +179,7 @@ def run(ctx, rep) -> None:
     rep.attempt("decomposition_structure", decomposition_structure, ctx, rep, "C03.9")
     rep.rule("C03.1", "the eigenbasis refresh precedes the corrected-eigenvalue update, which runs on every update_preconditioners call")
     rep.rule("C03.2", "precondition(): rotate -> divide -> rotate back, same basis / selector / guard, transposed contraction; the accumulator update rotates under the same predicate; ignored dims are only permuted")
-    rep.rule("C03.3", "basis refreshed only under the schedule flag; eigenvectors and corrected eigenvalues written only by their own updates")
+    rep.rule("C03.3", "basis refreshed only under the schedule flag, which is true exactly at step == start or (step > start and step % frequency == 0); eigenvectors and corrected eigenvalues written only by their own updates")
     rep.rule("C03.4", "dtype compatibility of allocations and of every same-dtype operation on the rotation and QR paths")
     ci = repo.cls(EVC)
     up = ci.methods.get("update_preconditioners")
@@ -195,7 +195,7 @@ def run(ctx, rep) -> None:
     fwd = sup and all(isinstance(A.keyword(sup[0], k), ast.Name) and A.keyword(sup[0], k).id == k for k in ("masked_grad_list", "step", "perform_amortized_computation"))
     rep.ob("C03.1", "super-call-forwards-arguments", bool(fwd), up.loc(sup[0]) if sup else up.loc(), "gradients, step and the schedule flag are forwarded unchanged to the base update")
     # ---- C03.2
-    pre = ci.methods["precondition"]
+    pre = repo.meth(ci, "precondition")
     pcfg = CFG(pre.node)
     rots = [c for c in A.calls(pre.node) if isinstance(c.func, ast.Attribute) and c.func.attr == "_precondition_grad"]
     divs = [w for w in pts.writes if w.func == pre.qual and w.op == "div_"]
@@ -218,7 +218,7 @@ def run(ctx, rep) -> None:
         detail = f"same basis: {same_basis}; same dims selector: {same_sel}; forward contraction ([0],[0]): {fwd_dims}; backward (transposed) contraction ([0],[1]): {back_dims}; both under the same single guard: {same_guard}; rotate < divide < rotate-back on one value: {order and chained}"
     rep.ob("C03.2", "rotate-divide-rotate-back", ok, pre.loc(), detail, sample=True)
     # the guard variable's definition == the predicate used in _update_eigenvalue_corrections
-    uec = ci.methods["_update_eigenvalue_corrections"]
+    uec = repo.meth(ci, "_update_eigenvalue_corrections")
     ucfg = CFG(uec.node)
     urot = [c for c in A.calls(uec.node) if isinstance(c.func, ast.Attribute) and c.func.attr == "_precondition_grad"]
     pred_u = [_norm(t) for t, p in guard_conditions(ucfg, ucfg.node_of(urot[0]))] if urot else []
@@ -248,6 +248,10 @@ def run(ctx, rep) -> None:
     rep.ob("C03.2", "ignored-dims-only-permuted", ok, pg.loc(), "in _precondition_grad a non-selected dimension is rotated to the back without contraction and without consuming a preconditioner", sample=True)
     # ---- C03.3
     rep.attempt("_amortized_guard", _amortized_guard, ctx, _Proxy(rep, "C01.3", "C03.3"))
+    from .c01 import schedule_expr_check
+    from .common import DS
+
+    rep.attempt("schedule_expr_check", schedule_expr_check, ctx, rep, "C03.3", ctx.repo.method(DS, "step"), "perform_amortized_computation", lambda s, a, f, env: s == a or (s > a and s % f == 0), "step == start or (step > start and step % freq == 0)")
     rep.attempt("who_may_write", who_may_write, ctx, rep, "C03.3", only_kinds={"factor_matrices_eigenvectors", "corrected_eigenvalues", "factor_matrices"}, include_params=False)
     # ---- C03.4
     rep.attempt("dtype_rules", dtype_rules, ctx, rep, "C03.4")
